@@ -20,7 +20,7 @@ Definition eqv (s s' : dstate) : Prop :=
   ds_file s = ds_file s' /\ ds_g s = ds_g s' /\ ds_quirks s = ds_quirks s'.
 
 Ltac eqv_tac :=
-  unfold eqv, with_unkf, with_unkm, with_defs, with_file, with_time in *;
+  unfold eqv, with_unkf, with_unkm, with_defs, with_file, with_time, with_quirk in *;
   cbn [ds_defs ds_ts ds_lastoff ds_unkf ds_unkm ds_file ds_g ds_quirks] in *;
   intuition congruence.
 
@@ -44,6 +44,8 @@ Proof. eqv_tac. Qed.
 Lemma eqv_file s s' f g : eqv s s' -> eqv (with_file s f g) (with_file s' f g).
 Proof. eqv_tac. Qed.
 Lemma eqv_time s s' ts lo : eqv s s' -> eqv (with_time s ts lo) (with_time s' ts lo).
+Proof. eqv_tac. Qed.
+Lemma eqv_quirk s s' q : eqv s s' -> eqv (with_quirk s q) (with_quirk s' q).
 Proof. eqv_tac. Qed.
 
 Lemma pts_eqv s s' u k n : eqv s s' ->
@@ -264,7 +266,8 @@ Proof.
     rewrite <- Ht2, <- Hl2.
     destruct (ds_ts s2 =? 0); [apply psim_pdf; exact He2|].
     unfold put_st. cbn [bind]. ps_put_both.
-    match goal with |- psim ?a ?b _ _ => assert (He3 : eqv a b) by (apply eqv_time; exact He2) end.
+    match goal with |- psim ?a ?b _ _ =>
+      assert (He3 : eqv a b) by (destruct (_ =? 0); [apply eqv_quirk|]; apply eqv_time; exact He2) end.
     unfold panic.
     ps_go ltac:(apply psim_pdf; assumption).
 Qed.
